@@ -54,6 +54,7 @@ Record params := {
   p_bonus : N;                         (* REFINED_LITERAL_SCORE_BONUS *)
   p_same : N;                          (* the `total_score += 200` of best_datatype_for_variadic_any *)
   p_any : N; p_i8 : N; p_i16 : N; p_i32 : N; p_i64 : N;       (* type ids *)
+  p_dec64 : N; p_dec128 : N;                                  (* type ids of Decimal64 / Decimal128 *)
   p_d8 : N; p_d16 : N; p_d32 : N; p_d64 : N }.                (* DEFAULT_IMPLICIT_CAST_SCORES.i8 .. i64 *)
 
 Definition score (P : params) (have want : N) : option N :=
@@ -303,19 +304,51 @@ Definition opt_ge (a b : option N) : bool :=
   | Some x, Some y => y <=? x
   end.
 
-Inductive side := SNone | SLeft | SRight.   (* which side needs the cast for this column *)
+Inductive side := SNone | SLeft | SRight | SBoth.   (* which side(s) need the cast for this column *)
+Definition side_of (lcast rcast : bool) : side :=
+  match lcast, rcast with false, false => SNone | true, false => SLeft | false, true => SRight | true, true => SBoth end.
+
+(* try_get_decimal_type_meta: (precision, scale) of a Decimal64 / Decimal128 type *)
+Definition dec_meta (P : params) (d : dtype) : option (Z * Z) :=
+  if (d_id d =? p_dec64 P) || (d_id d =? p_dec128 P)
+  then match d_meta d with [p; s] => Some (p, s) | _ => None end
+  else None.
+Definition dec64_max_precision : Z := 18.    (* Decimal64Type::MAX_PRECISION *)
+Definition dec128_max_precision : Z := 38.   (* Decimal128Type::MAX_PRECISION *)
+(* since 2b1fb11f8: two decimals of different (precision, scale):
+     scale = max(l.scale, r.scale); int_digits = max(l.precision - l.scale, r.precision - r.scale);
+     prec = clamp(int_digits + scale, 1, 38);
+     Decimal64 if prec <= 18 and both sides are Decimal64, else Decimal128;
+     left_needs_cast ||= left != output; right_needs_cast ||= right != output *)
+Definition dec_unify (P : params) (l r : dtype) : option (dtype * side) :=
+  match dec_meta P l, dec_meta P r with
+  | Some (lp, ls), Some (rp, rs) =>
+    let scale := Z.max ls rs in
+    let int_digits := Z.max (lp - ls) (rp - rs) in
+    let prec := Z.min (Z.max (int_digits + scale) 1) dec128_max_precision in
+    let out := {| d_id := if (prec <=? dec64_max_precision)%Z && (d_id l =? p_dec64 P) && (d_id r =? p_dec64 P)
+                          then p_dec64 P else p_dec128 P;
+                  d_meta := [prec; scale] |} in
+    Some (out, side_of (negb (dtype_eqb l out)) (negb (dtype_eqb r out)))
+  | _, _ => None
+  end.
+
 (* one column: `if left == right` is equality of the FULL DataType (id and metadata: decimal precision/scale,
    timestamp unit, list element type, struct fields) - the tie to the source is gen/TablesTyping.v
-   setop_full_type_equality; the scores look at the ids only, the output type is one side's full type *)
+   setop_full_type_equality; then the decimal rule; then the scores, which look at the ids only and make the
+   output one side's full type *)
 Definition unify1 (P : params) (l r : dtype) : option (dtype * side) :=
   if dtype_eqb l r then Some (l, SNone)
-  else
+  else match dec_unify P l r with
+  | Some x => Some x
+  | None =>
     let left_score := score P (d_id r) (d_id l) in
     let right_score := score P (d_id l) (d_id r) in
     match left_score, right_score with
     | None, None => None                                   (* "Cannot find suitable cast type" *)
     | _, _ => if opt_ge left_score right_score then Some (l, SRight) else Some (r, SLeft)
-    end.
+    end
+  end.
 (* `for (left, right) in left_types.into_iter().zip(right_types)`: the loop alone stops at the shorter list *)
 Fixpoint unify_zip (P : params) (ls rs : list dtype) : option (list (dtype * side)) :=
   match ls, rs with
@@ -335,7 +368,7 @@ Definition unify_cols (P : params) (ls rs : list dtype) : option (list (dtype * 
    column gets a projection giving EVERY column the output type (`orig_type == need_type` ? column : cast);
    a branch that needs none is used as it is *)
 Definition side_is (sd : side) (o : dtype * side) : bool :=
-  match snd o, sd with SLeft, SLeft | SRight, SRight => true | _, _ => false end.
+  match snd o, sd with SLeft, SLeft | SRight, SRight | SBoth, SLeft | SBoth, SRight => true | _, _ => false end.
 Definition needs_cast (sd : side) (outs : list (dtype * side)) : bool := existsb (side_is sd) outs.
 Definition branch_after (orig : list dtype) (outs : list (dtype * side)) (needs : bool) : list dtype :=
   if needs then map (fun p => fst (snd p)) (combine orig outs) else orig.
